@@ -148,9 +148,9 @@ func (d *drv) genSpec(r *lib.Rng, listener int, tags tagset) *pktSpec {
 	h.tc = uint8(r.U64())
 	h.flow = uint32(r.U64()) & 0xfffff
 	h.udpSrc = uint16(1024 + r.Intn(60000))
-	h.udpDst = scionPort
+	h.udpDst = uint16(scionPort)
 	if r.Intn(6) == 0 {
-		h.udpSrc = scionPort
+		h.udpSrc = uint16(scionPort)
 	}
 	// sometimes the SCION source is a harness socket: a reply sent to the
 	// source address instead of the previous hop becomes visible
@@ -441,6 +441,15 @@ func child(a lib.Args) {
 		if svcArgs != nil {
 			runSvc(svcArgs)
 		}
+		var fw [][]string
+		for _, l := range lib.ReplayLines(a.Replay) {
+			if l[0] == "srv.fwdnots" || l[0] == "srv.fwdhbh" {
+				fw = append(fw, l[:])
+			}
+		}
+		if fw != nil {
+			d.runFwdNoTs(nil, 0, fw)
+		}
 		for _, l := range lib.ReplayLines(a.Replay) {
 			switch l[0] {
 			case "srv":
@@ -492,6 +501,11 @@ func child(a lib.Args) {
 	for _, s := range d.probes {
 		runProbe("nt,unknown-path-type,mutated", []step{s})
 	}
+	nf := 120
+	if a.Tier == "thorough" {
+		nf = 1200
+	}
+	d.runFwdNoTs(r.Fork(), nf, nil)
 	// SCMP echo / traceroute requests that carry the time service's authenticator with a MAC that
 	// does not verify (kind srv.scmpauth: C13's "never served" read literally; the listener does
 	// not look at the authenticator of SCMP requests - KNOWN_FINDINGS)
